@@ -163,6 +163,7 @@ def run_wire(ev, vd, d, thorough):
     if thorough:
         configs += [[np.arange(3), "hello"], ["", 0, "abc"]]
     traces, meta = [], {}
+    spins = 0
     for msgs in configs:
         ids, frames = real_frames(msgs)
         lens = [len(f) - 20 for f in frames]
@@ -188,7 +189,16 @@ def run_wire(ev, vd, d, thorough):
             for p in rr.prints:
                 if not isinstance(p, dict) or "reads" not in p:
                     continue
-                t = feed_and_receive(frames, ids, msgs, p["reads"])
+                try:
+                    with common.deadline(30):
+                        t = feed_and_receive(frames, ids, msgs, p["reads"])
+                except common.Spinning:
+                    vd.violation({"what": f"framing: the receiver does not give control back (30 s): messages {[repr_msg(m) for m in msgs]} fed as reads "
+                                          f"{p['reads']} (0 = end of stream)", "clause": "ReceiverSpins", "part": "wire"})
+                    spins += 1
+                    if spins >= 3:
+                        break
+                    continue
                 t["tid"] = len(traces)
                 traces.append(t)
                 meta[t["tid"]] = (msgs, p)
@@ -208,7 +218,13 @@ def run_wire(ev, vd, d, thorough):
     random.Random(7).shuffle(rest)
     n_listener = 0
     for p in few + rest[:(1200 if not thorough else 12000)]:
-        t = listen_and_respond(cmds, ids, frames, p["reads"], 2.5)
+        try:
+            with common.deadline(30):
+                t = listen_and_respond(cmds, ids, frames, p["reads"], 2.5)
+        except common.Spinning:
+            vd.violation({"what": f"framing: the listener of a NetworkClient does not give control back (30 s): commands {[c for c, _ in cmds]} fed as reads "
+                                  f"{p['reads']} (0 = end of stream)", "clause": "ReceiverSpins", "part": "wire"})
+            break
         t["tid"] = len(traces)
         traces.append(t)
         meta[t["tid"]] = ([c for c, _ in cmds] + ["(through the listener of a NetworkClient, 2.5 s pause after every read)"], p)
